@@ -8,7 +8,9 @@ B_SPEC = 7     # the property: spherical output has branching at most 7 (and min
 
 EXPLANATION = (
     "Decided: (1) the curvature window has the requested sign: from the match tables of Geometries::{min,max}_curvature, Spherical lies in "
-    "[1, +inf), Euclidean is {0}, Hyperbolic lies in (-inf, -1], All contains all three. (2) the scaled integer curvature is exact and "
+    "[1, +inf), Euclidean is {0}, Hyperbolic lies in (-inf, -1], All contains all three; and each window contains curvatures that certainly "
+    "occur (Spherical: 4*CURV_FAC and CURV_FAC*4/120; Hyperbolic: -CURV_FAC/42 and everything down to -CURV_FAC/2 * 2^47, i.e. no lower "
+    "end a D-set in memory could reach). (2) the scaled integer curvature is exact and "
     "branching is explored up to 7: the constant inclusive upper end B of the branching loop in children() equals 7, CURV_FAC is divisible by "
     "every integer in 1..=B and by 2 (420 = lcm(1..7)), every compute_vmins arm lies in 1..=B, and every division of CURV_FAC in the module has "
     "a divisor that is a branching value (<= B) or 2. (3) every degree is at least 3: each arm r -> v of compute_vmins has r*v >= 3 and the "
@@ -70,6 +72,21 @@ def windows(ctx, g):
     okall = a[0] <= min(s[0], e[0], h[0]) and a[1] >= max(s[1], e[1], h[1])
     ctx.ob("T4-curvature-window", M + "Geometries", "All", "ok" if okall else "violation",
            "All window [%d, %d] contains the three others" % a if okall else "All window [%d, %d] does not contain the union of the three geometry windows" % a)
+    # completeness side (necessary instances): each window contains the curvatures that certainly occur in its geometry
+    cfv = ctx.facts.consts.get(M + "CURV_FAC", {}).get("int")
+    if cfv:
+        need = [
+            ("Spherical", s, 4 * cfv, "4*CURV_FAC (curvature 4: a tiling of the sphere with trivial symmetry group, e.g. the 24-chamber tetrahedron symbol with all v = 1)"),
+            ("Spherical", s, 4 * cfv // 120, "4*CURV_FAC/120 (the one-chamber symbol of *235, the largest spherical group)"),
+            ("Hyperbolic", h, -(cfv // 42), "-CURV_FAC/42 (the one-chamber symbol of *237, the smallest hyperbolic orbifold: curvature -1/42)"),
+            ("Hyperbolic", h, -(cfv // 2) * 2 ** 47, "-CURV_FAC/2 * 2^47 (base curvatures -CURV_FAC/2*size + .. of D-sets whose orbits cannot be lowered are unbounded below: any lower end a D-set in memory can reach is wrong)"),
+            ("All", a, 4 * cfv, "4*CURV_FAC"), ("All", a, 0, "0"), ("All", a, -(cfv // 2) * 2 ** 47, "-CURV_FAC/2 * 2^47"),
+        ]
+        for name, win, val, why in need:
+            ok = win[0] <= val <= win[1]
+            ctx.ob("T4-window-complete", M + "Geometries", "%s contains %s" % (name, why.split(" (")[0]), "ok" if ok else "violation",
+                   "%s window [%d, %d] contains %s" % (name, win[0], win[1], why) if ok else
+                   "%s window [%d, %d] excludes %d = %s: symbols of the requested geometry are dropped" % (name, win[0], win[1], val, why))
     # the windows are what the back-tracker stores
     nb = ctx.body(M + "DSymBackTracking::new")
     geoms = ("param", 2, nb.debug.get(2, ""))
